@@ -344,6 +344,25 @@ def _r3(ctx, cg):
                     if any(x[3] in l for l in loops):
                         it = [y for y in subterms(x[2][1]) if y[0] == "field" and y[2] == "policies"]
                         in_loop = in_loop or bool(it) or True
+                if not (good and in_loop):
+                    # the same subtraction written as a fold over the children: policies.iter().fold(own, |rest, p| rest.sub(&p.get_all_used_addresses()))
+                    for x in subterms(t):
+                        if x[0] == "call" and str(x[1]).rsplit("::", 1)[-1] == "fold" and len(x[2]) == 3 and \
+                                any(y[0] == "field" and y[2] == "policies" for y in subterms(norm(x[2][0]))):
+                            cid = closure_def_of(norm(x[2][2]))
+                            cb2 = P.bodies.get(cid) if cid else None
+                            if cb2 is not None:
+                                Tc2 = terms(P, cb2)
+                                for b3, t3 in cb2.calls():
+                                    n3 = callee_name(t3) or ""
+                                    if " as std::ops::Sub" in n3 and n3.endswith("::sub") and tuple(t3["dest"]) == (0,):
+                                        a3 = [norm(q) for q in Tc2.call_args(b3)]
+                                        # accumulator minus the child's used set: first operand is the closure's first argument
+                                        first = a3[0]
+                                        while first[0] in ("ref", "deref"):
+                                            first = norm(first[1])
+                                        if first == ("param", 2) and any(y[0] == "call" and str(y[1]).endswith("get_all_used_addresses") for y in subterms(a3[1])):
+                                            good = in_loop = True
                 ctx.check(good and in_loop, "R3", "policy-set=own-minus-children-used", ctx.where(b, s["sp"]),
                           "apply_address must be the policy's own addresses minus get_all_used_addresses() of every child policy (is %s)" % show(t)[:160])
     ctx.floor("R3", "assignments of a parsed policy's address set", n, 1)
